@@ -7,7 +7,7 @@
    fmt (format of a non-str value in the f-string `basename:name`, only reachable before the repairs)
    and fnmatch are oracles: every theorem holds for all of them. *)
 From Coq Require Import Sorting.Permutation Sorting.Sorted.
-From DoitV Require Import Base Loader LoaderP.
+From DoitV Require Import Base Loader LoaderP LoaderEntry LoaderEntryP.
 Open Scope Z_scope.
 Open Scope string_scope.
 
@@ -515,3 +515,65 @@ Proof.
   intros. split; [eexists; split; vm_compute; reflexivity | vm_compute; reflexivity].
 Qed.
 Print Assumptions C18_dangling_calc_dep_legacy_refuted.
+
+(* ================================================================== the entry point (Model/LoaderEntry.v)
+   The namespace of task-creators can be loaded through the command line, DoitMain(loader).run, doit.run,
+   doit.api.run_tasks, the default DodoTaskLoader or a LOADER plugin.  All of them configure the loader with
+   cmd_base.get_loader and hand it the commands of DoitMain.get_cmds (core commands and COMMAND plugins). *)
+
+(* the command names a task-creator must not be called like are, at every entry point, exactly the core commands
+   and the plugin commands of the configuration *)
+Theorem C18_entry_command_names : forall e core plugin x,
+  In x (entry_cmd_names e core plugin) <-> In x core \/ In x plugin.
+Proof. exact entry_cmd_names_in. Qed.
+Print Assumptions C18_entry_command_names.
+
+(* the validation does not depend on the entry point: same task list, same rejection (for load_tasks followed by
+   TaskControl and for load_tasks alone), whatever the creators give *)
+Theorem C18_entry_points_agree : forall fmt fnmatch level e1 e2 core plugin allow cs,
+  entry_load fmt fnmatch level e1 core plugin allow cs = entry_load fmt fnmatch level e2 core plugin allow cs /\
+  entry_load_tasks fmt level e1 core plugin allow cs = entry_load_tasks fmt level e2 core plugin allow cs.
+Proof. exact entry_points_agree. Qed.
+Print Assumptions C18_entry_points_agree.
+
+(* a creator named like a core command or like a plugin command: InvalidDodoFile at every entry point, reported as a
+   user error (exit code 3 / re-raised by run_tasks), never a traceback, whatever else is in the namespace *)
+Theorem C18_entry_rejects_command_name : forall fmt fnmatch level e core plugin allow cs c,
+  In c cs -> In (c_name c) core \/ In (c_name c) plugin ->
+  entry_load_tasks fmt level e core plugin allow cs = Invalid InvalidDodo /\
+  entry_load fmt fnmatch level e core plugin allow cs = Invalid InvalidDodo /\
+  entry_report e (entry_load_tasks fmt level e core plugin allow cs) = [3; 0] /\
+  entry_report e (entry_load fmt fnmatch level e core plugin allow cs) = [3; 0].
+Proof. exact entry_cmd_clash. Qed.
+Print Assumptions C18_entry_rejects_command_name.
+
+(* at every entry point loading ends with exit code 0 or with a user error and exit code 3: never an internal traceback *)
+Theorem C18_entry_total : forall fmt fnmatch e core plugin allow cs,
+  (entry_report e (entry_load fmt fnmatch L2 e core plugin allow cs) = [0; 0] \/
+   entry_report e (entry_load fmt fnmatch L2 e core plugin allow cs) = [3; 0]) /\
+  (entry_report e (entry_load_tasks fmt L2 e core plugin allow cs) = [0; 0] \/
+   entry_report e (entry_load_tasks fmt L2 e core plugin allow cs) = [3; 0]).
+Proof. exact entry_total. Qed.
+Print Assumptions C18_entry_total.
+
+(* what one entry point rejects, every entry point rejects, with the same class of diagnostic *)
+Theorem C18_entry_invalid_everywhere : forall fmt fnmatch level e1 e2 core plugin allow cs x,
+  entry_load fmt fnmatch level e1 core plugin allow cs = Invalid x ->
+  entry_load fmt fnmatch level e2 core plugin allow cs = Invalid x /\
+  entry_report e2 (entry_load fmt fnmatch level e2 core plugin allow cs) = [3; 0].
+Proof. exact entry_invalid_everywhere. Qed.
+Print Assumptions C18_entry_invalid_everywhere.
+
+(* non-vacuity and sensitivity: task_list / task_deploy next to a valid creator are rejected through run_tasks and
+   through a plugin loader; a look-alike name is accepted; and it is the command names handed to get_loader that do
+   it -- a loader configured WITHOUT them (get_loader None, what an entry point that forgets them would give)
+   accepts the same namespace *)
+Example C18_entry_examples : forall fmt fnmatch,
+  let C n := {| c_name := n; c_delayed := None; c_result := IDict [(KAttr AActions, VNone)] |} in
+  let core := ["clean"; "list"; "run"] in
+  entry_load fmt fnmatch L2 ERunTasks core ["deploy"] true [C "ok"; C "list"] = Invalid InvalidDodo /\
+  entry_load fmt fnmatch L2 EPluginLoader core ["deploy"] false [C "deploy"; C "ok"] = Invalid InvalidDodo /\
+  (exists ts, entry_load fmt fnmatch L2 ERunTasks core ["deploy"] true [C "ok"; C "lists"] = Ok ts /\
+              map t_name ts = ["ok"; "lists"]) /\
+  (exists ts, load fmt fnmatch L2 (get_loader None) true [C "ok"; C "list"] = Ok ts /\ map t_name ts = ["ok"; "list"]).
+Proof. intros. repeat split; try (eexists; split); vm_compute; reflexivity. Qed.
